@@ -595,12 +595,16 @@ def augassign_index(chk):
             ok = all(isinstance(x, (_ast.Name, _ast.Constant)) for x in idx)
             # every temporary used as an index is assigned exactly once, before the statement
             pos = stmts.index(aug[0])
+            order = []
             for x in idx:
                 if isinstance(x, _ast.Name) and x.id.startswith("%tmp"):
                     defs = [k for k, st in enumerate(stmts) if isinstance(st, _ast.Assign) and isinstance(st.targets[0], _ast.Name) and st.targets[0].id == x.id]
                     ok = ok and len(defs) == 1 and defs[0] < pos
+                    order += defs
+            # idx lists the subscripts outermost first; Python evaluates a[i][j] from the inside (i before j)
+            ok = ok and order == sorted(order, reverse=True)
             return z3.BoolVal(ok)
-        chk.prove_paths(f"visit_AugAssign[{tgt} += v]:every-index-of-the-target-is-a-name-or-constant-afterwards(bound-once-before-the-statement)", paths, post, func=f"{BM}:CFGBuilder.visit_AugAssign",
+        chk.prove_paths(f"visit_AugAssign[{tgt} += v]:every-index-of-the-target-is-a-name-or-constant-afterwards(bound-once-before-the-statement,innermost-subscript-first)", paths, post, func=f"{BM}:CFGBuilder.visit_AugAssign",
                         replay=lambda m_: {"script": REPLAY_AUG, "input": {}})
         n += 1
     chk.record("visit_AugAssign:targets-explored", n >= 15, str(n), kind="reachability")
